@@ -808,7 +808,3 @@ func obsHist(w *world) *imapc.History {
 
 	return nil
 }
-
-func bedStart() (*bed.Bed, error) {
-	return bed.Start(bed.Options{LoginJail: Jail}, bed.UserSpec{Name: "a", Pass: "a"}, bed.UserSpec{Name: "b", Pass: "b"}, bed.UserSpec{Name: "c", Pass: "c"})
-}
